@@ -89,6 +89,11 @@ class FrameMixin:
             return to_int(i) if not isinstance(i, fl.SFloat) else self.top_int()
         return super().norm_index(arr_name, i, n, st, node)
 
+    def obj_attr(self, base, a, st, n):
+        if self.frame_only():
+            return TOP  # configuration fields of the step object: unmodelled values
+        return super().obj_attr(base, a, st, n)
+
     def div_check(self, x, y, node):
         if self.frame_only():
             return  # values are not modelled in frame mode (numpy scalar division yields inf/nan, it does not raise)
@@ -124,10 +129,46 @@ class FrameMixin:
             probe = [fresh_int("any") for _ in v.shape]
             st.log.append(("R", arr.cell, tuple(mp(probe)), list(st.pc)))
 
+    def view_cell(self, v):
+        if isinstance(v, SArr):
+            return v.cell
+        if isinstance(v, tuple) and v and v[0] in ("sview", "smap"):
+            b = v
+            while b[0] == "smap":
+                b = b[1]
+            return b[1].cell
+        if isinstance(v, LArr) and v.base is not None:
+            return v.base[0].cell
+        return None
+
+    def is_input_view(self, v):
+        """a view of an array this function did not allocate itself (a parameter, or reachable from one)"""
+        c = self.view_cell(v)
+        return c is not None and c not in self.local_cells
+
     def absorb(self, vals, st):
         for v in vals:
             if is_shared_view(v):
                 self.log_view_read(v, st)
+
+    def input_write(self, v, st, node, what):
+        """a write (or possible write) through a view: frame obligation when the array is not this function's own"""
+        c = self.view_cell(v)
+        if c is None:
+            return
+        arr = v if isinstance(v, SArr) else None
+        if c not in self.local_cells and not (self.c is not None and self.c.assigns is None) and c not in self.assignable_cells:
+            self.emit(st, "frame", "L%d" % getattr(node, "lineno", 0), False, node,
+                      "%s writes an array the function did not allocate and that is not in assigns(...)" % what)
+        if st.log is not None and c not in self.local_iter_cells:
+            st.log.append(("W", c, tuple(fresh_int("any") for _ in range(8))[:0] or (fresh_int("any"),), list(st.pc)))
+        if c in st.heap:
+            from .vals import fresh_array_term
+            h = st.heap[c]
+            if isinstance(h, tuple):
+                st.heap[c] = tuple(z3.Const(fresh_name("hv"), x.sort()) for x in h)
+            else:
+                st.heap[c] = z3.Const(fresh_name("hv"), h.sort())
 
     # ------------------------------------------------------------ expressions
     def e_Call(self, n, st):
@@ -155,7 +196,7 @@ class FrameMixin:
                 pass
         # receiver of a method call
         recv = None
-        if isinstance(n.func, ast.Attribute):
+        if isinstance(n.func, ast.Attribute) and not fname.startswith(("np.", "numpy.", "math.", "xr.", "copy.", "warnings.")):
             recv = self.eval(n.func.value, st)
             from .vals import SNs
             if isinstance(recv, SNs):
@@ -169,16 +210,26 @@ class FrameMixin:
         flat = []
         for a in allv:
             flat += list(a) if isinstance(a, tuple) and not (a and isinstance(a[0], str)) else [a]
-        if short in VIEW_FUNCS and any(is_shared_view(a) for a in flat):
+        if (short in VIEW_FUNCS or short == "as_strided") and any(self.is_input_view(a) for a in flat) and st.log is not None:
             raise Unsupported("frame mode: %s may return a view of a shared array (line %d)" % (fname, n.lineno))
-        if any(k.arg == "out" for k in n.keywords):
-            raise Unsupported("frame mode: out= argument (line %d)" % n.lineno)
+        if short == "nan_to_num" and any(k.arg == "copy" for k in n.keywords) and flat:
+            self.input_write(flat[0], st, n, "np.nan_to_num(copy=False)")
+            return TOP
+        if short == "append" and isinstance(recv, SList):
+            recv.items.append(args[0] if args else None)
+            return None
+        for k in n.keywords:
+            if k.arg == "out":
+                self.input_write(self.eval(k.value, st), st, n, "out= argument of %s" % fname)
         if isinstance(recv, (SArr,)) and short in ("fill", "sort", "put", "itemset", "resize"):
             raise Unsupported("frame mode: in-place method %s on a shared array (line %d)" % (short, n.lineno))
-        callee = self.static_callee(n, st) if not isinstance(n.func, ast.Attribute) or recv is None else None
-        if callee and (callee in self.db.contracts or callee in self.db.assumed):
-            call = ast.Call(func=n.func, args=[_Lit(a) for a in args[:len(n.args)]], keywords=[], lineno=n.lineno, col_offset=0)
-            return super().e_Call(call, st)
+        callee = self.static_callee(n, st) if not isinstance(n.func, ast.Attribute) else None
+        cc = (self.db.contracts.get(callee) or self.db.assumed.get(callee)) if callee else None
+        if cc is not None and cc.assigns:
+            # the callee's contract says which arguments it writes
+            for pname in cc.assigns:
+                if pname in cc.params and cc.params.index(pname) < len(args):
+                    self.input_write(args[cc.params.index(pname)], st, n, "callee %s" % callee)
         self.absorb(flat, st)
         if short in SCALAR_FUNCS and not any(k.arg == "axis" for k in n.keywords) and len(n.args) <= 1 + (short in ("percentile", "nanpercentile", "quantile", "nanquantile", "dot")):
             return self.top_float()
@@ -259,9 +310,62 @@ class FrameMixin:
                     r = self.top_int()
                     st.assume(r >= 0)
                     return r
-                return SFunc(name="top." + n.attr, handler=("topmethod", base)) if n.attr not in ("T", "real", "flat") else TOP
+                return SFunc(name="top." + n.attr, handler=("topmethod", base)) if n.attr not in ("T", "real", "flat", "data", "values", "attrs", "coords", "sizes", "dims") else TOP
+            if isinstance(base, SArr) and n.attr in ("strides", "dtype", "flags", "itemsize", "nbytes"):
+                return TOP
             return super().e_Attribute(ast.Attribute(value=_Lit(base), attr=n.attr, ctx=n.ctx, lineno=n.lineno, col_offset=0), st)
         return super().e_Attribute(n, st)
+
+    def s_For(self, s, st):
+        if self.frame_only():
+            it = None
+            try:
+                it = self.eval(s.iter, st)
+            except Unsupported:
+                it = TOP
+            if isinstance(it, Top) or (isinstance(it, tuple) and it and it[0] == "enumerate_top"):
+                # a loop over an unmodelled sequence: ONE arbitrary iteration from a havocked state stands for all of them
+                # (sound for the frame/race obligations: every iteration performs the same kinds of accesses)
+                from .stmts import assigned_names
+                names, stores, calls = assigned_names(s.body)
+                hv = st.fork()
+                for nm in sorted(names):
+                    if nm in hv.vars:
+                        hv.vars[nm] = self.havoc_value(nm, hv.vars[nm], hv)
+                for nm in sorted(stores):
+                    v = hv.vars.get(nm)
+                    if isinstance(v, SArr):
+                        from .state import havoc_cell
+                        havoc_cell(hv, v, nm)
+                for tt in ast.walk(s.target):
+                    if isinstance(tt, ast.Name):
+                        hv.vars[tt.id] = TOP
+                if isinstance(it, tuple) and isinstance(s.target, ast.Tuple) and isinstance(s.target.elts[0], ast.Name):
+                    hv.vars[s.target.elts[0].id] = self.top_int()
+                out = []
+                skip = hv.fork()
+                for (s2, oc, pl) in self.exec_block(s.body, hv):
+                    out.append((s2, "normal" if oc in ("normal", "continue", "break") else oc, pl))
+                return out + [(skip, "normal", None)]
+            k0 = self.loop_ordinals.get(id(s), 0)
+            s = ast.For(target=s.target, iter=_Lit(it), body=s.body, orelse=s.orelse, lineno=s.lineno, col_offset=0)
+            self.loop_ordinals[id(s)] = k0
+            self._keep.append(s)
+        return super().s_For(s, st)
+
+    def b_enumerate(self, args, kw, st, n):
+        if self.frame_only() and args and isinstance(args[0], Top):
+            return ("enumerate_top",)
+        return super().b_enumerate(args, kw, st, n)
+
+    def e_BoolOp(self, n, st):
+        if self.frame_only():
+            vals = []
+            for e in n.values:
+                v = self.eval(e, st)
+                vals.append(_Lit(fresh_bool("top") if isinstance(v, Top) else v))
+            return super().e_BoolOp(ast.BoolOp(op=n.op, values=vals, lineno=n.lineno, col_offset=0), st)
+        return super().e_BoolOp(n, st)
 
     def e_IfExp(self, n, st):
         if self.frame_only():
@@ -297,7 +401,10 @@ class FrameMixin:
                     if any(isinstance(i, (Top,)) for i in idx) or any(not isinstance(i, tuple) and self.top_derived(i) for i in idx):
                         if base.cell in self.local_iter_cells:
                             return
-                        raise Unsupported("frame mode: store into a shared array at an unmodelled index (line %d)" % t.lineno)
+                        if st.log is not None and base.cell not in self.local_cells:
+                            raise Unsupported("frame mode: store into a shared array at an unmodelled index inside a parallel loop (line %d)" % t.lineno)
+                        self.input_write(base, st, t, "masked / fancy store")
+                        return
                     if any(isinstance(i, tuple) for i in idx) or len(idx) < base.ndim:
                         # a[i, j, :] = ... : a write of the whole slice (unconstrained positions on the sliced axes)
                         shape = base.view_shape()
